@@ -230,12 +230,7 @@ func (s *vCliStream) RecvMsg(m interface{}) error {
 		out := m.(*Message)
 		vAssert(out.msgType == responseType, "C13.client-creates-response-type")
 		// as the codec does: metadata decoded into the message's own metadata object
-		if out.Metadata == nil {
-			out.Metadata = &ordering.Metadata{}
-		}
-		out.Metadata.MessageID = r.Metadata.MessageID
-		out.Metadata.Method = r.Metadata.Method
-		out.Metadata.Status = r.Metadata.Status
+		vDecodeMetadataInto(out, r.Metadata)
 		out.Message = r.Message
 		s.receiving = false
 		return nil
@@ -397,4 +392,28 @@ func vStamp(p *vPeer, a *vArrived, ser int) *vMsg {
 		m.reqTok = r.tok
 	}
 	return m
+}
+
+// vDecodeMetadataInto does to the target's metadata what the codec's Unmarshal does: the target
+// is reset first unless the codec's unmarshal options say Merge, then every field that is
+// present on the wire (non-zero scalar, non-nil message) is written. The option is read from
+// the real NewCodec(), so that a codec that stops resetting its targets behaves here as it
+// does on the wire (with a re-used target, fields absent from a later frame keep the values
+// of an earlier one).
+func vDecodeMetadataInto(out *Message, wire *ordering.Metadata) {
+	if out.Metadata == nil {
+		out.Metadata = &ordering.Metadata{}
+	}
+	if !NewCodec().unmarshaler.Merge {
+		out.Metadata.MessageID, out.Metadata.Method, out.Metadata.Status = 0, "", nil
+	}
+	if wire.MessageID != 0 {
+		out.Metadata.MessageID = wire.MessageID
+	}
+	if wire.Method != "" {
+		out.Metadata.Method = wire.Method
+	}
+	if wire.Status != nil {
+		out.Metadata.Status = wire.Status
+	}
 }
